@@ -273,7 +273,15 @@ func c11scenario(rep *vh.Report, seed uint64, idx int) {
 					if v1 {
 						fr = &frame.V1Frame{SequenceNumber: c.Seq, SystemID: c.Sys, ComponentID: c.Comp, Message: msg}
 					} else {
-						fr = &frame.V2Frame{SequenceNumber: c.Seq, SystemID: c.Sys, ComponentID: c.Comp, Message: msg}
+						f2 := &frame.V2Frame{SequenceNumber: c.Seq, SystemID: c.Sys, ComponentID: c.Comp, Message: msg}
+						if gr.Chance(1, 4) {
+							// a frame that came from a signed link and had its signed flag cleared by the application: the left-over
+							// signature fields are not part of an unsigned frame
+							f2.Signature = &frame.V2Signature{0xFD, 0xFE, 0xFD, 0xFE, 0xFD, 0xFE}
+							f2.SignatureLinkID = 0xFD
+							f2.SignatureTimestamp = 0xFDFEFDFEFDFE
+						}
+						fr = f2
 					}
 					if raw, ok := msg.(*message.MessageRaw); ok {
 						sp := &ref.FrameSpec{Version: 2, Seq: c.Seq, Sys: c.Sys, Comp: c.Comp, MsgID: raw.ID, Payload: raw.Payload}
